@@ -149,7 +149,7 @@ def component_generations():
                'flags (all 8 bits, incl. repeat) and coordinates; decoder-rejected inputs (too little data, bad repeat counts) end the path',
         shims=['struct', 'array', 'bytearray'],
         quick=[dict(npts=1, L=L) for L in (1, 3, 5)] + [dict(npts=2, L=L) for L in (2, 4, 6)],
-        thorough=[dict(npts=1, L=L) for L in (1, 2, 3, 4, 5)] + [dict(npts=2, L=L) for L in (2, 3, 4, 5, 6, 8, 10)] + [dict(npts=3, L=L) for L in (2, 3, 5, 7)],
+        thorough=[dict(npts=1, L=L) for L in (1, 2, 3, 4, 5)] + [dict(npts=2, L=L) for L in (2, 3, 4, 5, 6, 7)] + [dict(npts=3, L=L) for L in (2, 3, 5, 6)],
         max_paths=300000)
 def simple_glyph_generations(npts, L):
     body = V.bytes('body', L)
@@ -382,6 +382,10 @@ class _Zlib:
         self.calls = []
 
     def compress(self, data, level=None):
+        # a function: equal inputs give equal outputs
+        for dd, out in self.calls:
+            if len(tobytes(dd)) == len(tobytes(data)) and bool(eq(tobytes(dd), tobytes(data))):
+                return out
         k = len(self.calls)
         n = max(1, len(data) + self.deltas[k % len(self.deltas)])
         out = V.bytes('zout%d' % k, n)
@@ -431,18 +435,6 @@ def passthrough_untouched(lens, flavor, d=(0,)):
         # second generation
         font2 = TTFont(new_file(g1), lazy=True)
         f2 = new_file()
-        z.calls_before = len(z.calls)
-        if flavor == 'woff':
-            # the same compressor gives the same output for the same input
-            z2calls = list(z.calls)
-            orig_compress = z.compress
-
-            def compress_again(data, level=None):
-                for dd, out in z2calls:
-                    if len(tobytes(dd)) == len(tobytes(data)) and bool(eq(tobytes(dd), tobytes(data))):
-                        return out
-                return orig_compress(data, level)
-            SF.compress = compress_again
         font2.save(f2, reorderTables=None)
         g2 = f2.getvalue()
         ob('second-generation-identical', eq(tobytes(g1), tobytes(g2)) if len(tobytes(g1)) == len(tobytes(g2)) else False)
